@@ -114,4 +114,30 @@ def mayReuse (m : Msg) (e : ReuseEnv) : Bool :=
   else
     alive && e.bodyEOF && !e.sawEOF && e.wroteRequest && e.poolAccepts
 
+/-- What `readLoop` does with the connection after one exchange: a call error ends the loop
+(`pc.close`), otherwise `mayReuse` with `bodyEOF` only if the body really ended in io.EOF. -/
+def connReusable (o : Outcome) (e : ReuseEnv) : Bool :=
+  match o with
+  | .reject => false
+  | .resp m b => mayReuse m { e with bodyEOF := e.bodyEOF && b.ok }
+
+/-! ### informational responses (`persistConn.readResponse`, transport.go:2874) -/
+
+/-- Heads are read until one is not a non-terminal 1xx (101 is terminal); at most 5 are
+skipped (`max1xxResponses`), so `fuel = 6` on entry. `none` = error. -/
+def parseFinalHead : Nat → Bool → Bytes → Option (Msg × Bytes)
+  | 0, _, _ => none                                   -- too many 1xx informational responses
+  | fuel + 1, isHead, s =>
+    match parseHead isHead s with
+    | none => none
+    | some (m, r) =>
+      if 100 ≤ m.sl.code ∧ m.sl.code ≤ 199 ∧ m.sl.code ≠ 101 then parseFinalHead fuel isHead r
+      else some (m, r)
+
+/-- The response a round trip returns for the stream `s` (then end of input). -/
+def parseFinal (isHead : Bool) (B : Nat) (s : Bytes) : Outcome :=
+  match parseFinalHead 6 isHead s with
+  | none => .reject
+  | some (m, r) => .resp m (readBody B m r)
+
 end Req.H1
